@@ -781,6 +781,30 @@ func TestPropCodeAll(t *testing.T) {
 	evid.SetExhaustive("codeall")
 }
 
+// FuzzLocation: coverage-guided exploration of the same generator (rapid.MakeFuzz turns the fuzzer's bytes into draws).
+func FuzzLocation(f *testing.F) {
+	f.Fuzz(rapid.MakeFuzz(func(t *rapid.T) {
+		c := genLoc(t)
+		o := checkLoc(c)
+		if o.Violation != "" && !(o.Finding != "" && evid.IsKnown(o.Finding)) {
+			evid.Record("fuzzlocation", c, o)
+			t.Fatalf("%s replay=%s", o.Violation, evid.SaveFailure("fuzzlocation"))
+		}
+	}))
+}
+
+// FuzzScheme: coverage-guided exploration of the same generator (rapid.MakeFuzz turns the fuzzer's bytes into draws).
+func FuzzScheme(f *testing.F) {
+	f.Fuzz(rapid.MakeFuzz(func(t *rapid.T) {
+		c := genScheme(t)
+		o := checkScheme(c)
+		if o.Violation != "" && !(o.Finding != "" && evid.IsKnown(o.Finding)) {
+			evid.Record("fuzzscheme", c, o)
+			t.Fatalf("%s replay=%s", o.Violation, evid.SaveFailure("fuzzscheme"))
+		}
+	}))
+}
+
 func TestReplay(t *testing.T) {
-	evid.Replay(t, evid.R("location", checkLoc), evid.R("code", checkCode), evid.R("codeall", checkCode), evid.R("scheme", checkScheme), evid.R("origin", checkOrigin), evid.R("sets", checkSet))
+	evid.Replay(t, evid.R("fuzzlocation", checkLoc), evid.R("fuzzscheme", checkScheme), evid.R("location", checkLoc), evid.R("code", checkCode), evid.R("codeall", checkCode), evid.R("scheme", checkScheme), evid.R("origin", checkOrigin), evid.R("sets", checkSet))
 }
